@@ -3,22 +3,17 @@ From Coq Require Import List Bool Lia.
 From Viv Require Import Model.Parallel.
 Import ListNotations.
 
-Lemma round_idle s : pending s = false ->
-  prun s [CSend; CGet] = inl s \/ exists s', prun s [CSend; CGet] = inl s' /\ pending s' = false
-                                              /\ ended s' = ended s /\ alive s' = alive s.
-Proof.
-  intros H. right. unfold prun, pstep. rewrite H. cbn. eexists. split; [reflexivity|]. cbn. auto.
-Qed.
-
-Lemma rounds_ok n : forall s, pending s = false ->
+Lemma rounds_ok n : forall s, pending s = false -> ended s = false ->
   exists s', prun s (concat (repeat [CSend; CGet] n)) = inl s' /\ pending s' = false
              /\ ended s' = ended s /\ alive s' = alive s.
 Proof.
-  induction n as [|n IH]; intros s H.
+  induction n as [|n IH]; intros s H He.
   - exists s. cbn. auto.
-  - cbn [repeat concat]. cbn [app prun]. unfold pstep at 1. rewrite H. cbn [pending pstep].
-    destruct (IH {| pending := false; ended := ended s; alive := alive s |} eq_refl) as [s' [H1 [H2 [H3 H4]]]].
-    exists s'. cbn in *. auto.
+  - cbn [repeat concat app]. cbn [prun]. unfold pstep at 1. rewrite H, He.
+    cbn [prun]. unfold pstep at 1. cbn [pending].
+    cbn [ended alive].
+    destruct (IH {| pending := false; ended := false; alive := alive s |} eq_refl eq_refl) as [s' [H1 [H2 [H3 H4]]]].
+    exists s'. cbn [ended alive] in H3, H4. auto.
 Qed.
 
 Lemma prun_app s a b : prun s (a ++ b) = match prun s a with inl s' => prun s' b | inr e => inr e end.
@@ -47,7 +42,7 @@ Theorem engine_protocol_ok rounds ends : (0 < ends)%nat ->
   exists s', prun fresh (engine_trace rounds ends) = inl s' /\ alive s' = false /\ ended s' = true /\ pending s' = false.
 Proof.
   intros He. unfold engine_trace. rewrite prun_app.
-  destruct (rounds_ok rounds fresh eq_refl) as [s1 [H1 [H2 [H3 H4]]]]. rewrite H1.
+  destruct (rounds_ok rounds fresh eq_refl eq_refl) as [s1 [H1 [H2 [H3 H4]]]]. rewrite H1.
   destruct (ends_ok ends s1 H2 He) as [s2 [H5 [H6 H7]]].
   exists s2. rewrite H5. split; [reflexivity|]. cbn in H3. rewrite H3 in H6. split; [exact H6|]. split; [exact H7|].
   clear - H5 H2. revert s1 H2 H5. induction ends as [|n IH]; intros s1 H2 H5; cbn in H5.
